@@ -153,7 +153,8 @@ static std::string top_frame(const std::string &rep, std::string *loc, bool *via
         ln.find("/verif/engine/") != std::string::npos) { if (!harness) hframe = ln.substr(in + 4); harness = true; continue; }
     if (ln.find(" " + g_repo + "/") == std::string::npos) continue;
     std::string fn = ln.substr(in + 4);
-    size_t sp = fn.rfind(' '); if (loc && sp != std::string::npos) *loc = fn.substr(sp + 1);
+    size_t sp = fn.rfind(' ');
+    if (sp != std::string::npos && fn.find('/', sp) != std::string::npos) { if (loc) *loc = fn.substr(sp + 1); fn = fn.substr(0, sp); }
     // strip template arguments and the parameter list
     std::string o; int depth = 0;
     for (char c : fn) { if (c == '<') ++depth; else if (c == '>') { if (depth) --depth; } else if (c == '(' && depth == 0) break; else if (!depth) o += c; }
